@@ -22,6 +22,24 @@ NEEDS = {
  'C16_2': 'verbose logging, head-less (PeerRoot) machine with a failing plan: the apex logs planSucceeded for a planFailed delivery',
  'C20_1': 'BitArrayT capacity multiple of 8: set() clears the whole last byte',
  'C20_2': 'DynamicArrayT not full: iteration / += other visit stale slots past count()',
+ 'C02_1': 'a guard vetoes in a round after a redirect was accepted: the staged destination falls back to the origin of the vetoed request instead of the last accepted destination',
+ 'C02_2': 'state with injections whose injected entryGuard() cancels: the veto is not reported, the cancelled transition is applied',
+ 'C03_1': 'two guard rounds in one step with a cancel in the first: _cancelled stays set, later rounds are reported vetoed',
+ 'C03_2': 'same reorder as C02_2 (cancelledBefore sampled after the injected guards)',
+ 'C04_1': 'guards keep redirecting until SUBSTITUTION_LIMIT: processRequest() loops again instead of returning with the left-over request cleared',
+ 'C04_2': 'guard vetoes and redirects in the same round: staged destination keeps the vetoed value',
+ 'C06_1': 'initial activation with an entry guard: GuardControl sees pending/current transitions swapped',
+ 'C06_2': 'changeWith() from a state callback: the request origin is not the calling state',
+ 'C08_1': 'non-cyclic plan task whose origin succeeded: the success report of the origin is not consumed',
+ 'C08_2': 'plan ends while the last state (STATE_COUNT-1) has a pending report: it survives Plan::clear()',
+ 'C09_1': 'state reports both success and failure in one step: success wins over failure',
+ 'C09_2': 'void-payload machine: PlanData::clear() leaves planExists set',
+ 'C11_1': 'same as C02_1 seen through the transition history',
+ 'C11_2': 'activation where an entry guard redirected: previousTransition records the pending instead of the applied transition',
+ 'C17_1': 'machine copied while a request with origin/payload is outstanding: the copy keeps only the destination',
+ 'C18_1': 'TaskListT clear() after the list has grown: stale _last makes a later emplace() corrupt the free list / write out of range',
+ 'C18_2': '>= 128 states: SerialBuffer one bit (byte) short of what save() writes',
+ 'C18_3': 'TaskListT emplace() of the last free slot writes _items[CAPACITY]',
 }
 def sh(cmd, **kw):
     return subprocess.run(cmd, shell=True, stdout=subprocess.PIPE, stderr=subprocess.STDOUT, text=True, **kw)
